@@ -422,7 +422,8 @@ def registry():
     reg["C15"].hang_is_violation = True
     reg["C15"].components_real = reg["C15"].components_real + LIFE_REAL
     reg["C15"].components_stub = reg["C15"].components_stub + LIFE_STUB
-    reg["C11"].batches += [L.ApiEpisodes("api-reload", 2500, 40000, isa="riscv", flavour="reload")]
+    reg["C11"].batches += [L.ApiEpisodes("api-reload", 2500, 40000, isa="riscv", flavour="reload"),
+                           M.InstructionCacheWalks("icache-walk", 30000, 450000)]
     reg["C09"].batches += [L.ApiEpisodes("api-dcache-loads", 1200, 20000, isa="riscv", flavour="loads", force={"dc": {"enable": True}})]
     reg["C09"].components_real = reg["C09"].components_real + LIFE_REAL[:3]
     reg["C11"].components_real = reg["C11"].components_real + LIFE_REAL[:2]
